@@ -232,6 +232,9 @@ def defined_before_use(ctx: Ctx):
         if t == ("undef",):
             yield t
             return
+        if is_term(t) and t[0] == "unknown" and len(t) == 2 and isinstance(t[1], str) and t[1].startswith("name "):
+            yield t
+            return
         if is_term(t) and t[0] in ("phi", "ifexp"):
             yield from scan(t[1], depth + 1)
             for arm in (t[2], t[3]):
